@@ -179,6 +179,11 @@ func elemDecoder(p *load.Prog, r *report.Report, m *elemModel, dc decCase) {
 			return
 		}
 		x, y, z, why := m.coords(it, it.InputRoots()[0])
+		if why == "" && isNil {
+			// a decoder may compute the candidate first and test validity afterwards: what the path learned at the test
+			// applies to the value stored before it
+			x, y, z = it.DeepApplyPoly(x), it.DeepApplyPoly(y), it.DeepApplyPoly(z)
+		}
 		if !isNil {
 			// rejection: must be justified, receiver unchanged
 			if !allFalse {
@@ -210,7 +215,7 @@ func elemDecoder(p *load.Prog, r *report.Report, m *elemModel, dc decCase) {
 			if pfx != nil {
 				b := boolTermOf(pfx.Bit(0) == 1)
 				for _, Rk := range R {
-					Rk = it.ApplyPoly(Rk)
+					Rk = it.DeepApplyPoly(Rk)
 					cond := absint.PXor(sgn0(Rk), b)
 					want := cmov(Rk, Rk.Neg(), cond)
 					if x.Equal(fe(Xc)) && y.Equal(want) && z.Equal(one) {
@@ -222,7 +227,9 @@ func elemDecoder(p *load.Prog, r *report.Report, m *elemModel, dc decCase) {
 				b := boolTermOf(pfx.Bit(0) == 1)
 				cond := absint.PXor(sgn0(R[0]), b)
 				want := cmov(R[0], R[0].Neg(), cond)
-				fmt.Fprintf(os.Stderr, "GOT  %s\nWANT %s\nxeq=%v zeq=%v\n", y.Key(), want.Key(), x.Equal(fe(Xc)), z.Equal(one))
+				fmt.Fprintf(os.Stderr, "GOT  %s\nWANT %s\nxeq=%v zeq=%v\n", y.String(), want.String(), x.Equal(fe(Xc)), z.Equal(one))
+				fmt.Fprintf(os.Stderr, "GUARDS %s\n", guardString(res))
+				fmt.Fprintf(os.Stderr, "APPLIED y %d -> %d terms; preds %d; assumed %s\n", y.NumTerms(), it.ApplyPoly(y).NumTerms(), len(y.PredAtoms()), it.AssumedString())
 				fmt.Fprintf(os.Stderr, "NT got=%d want=%d diff=%d\n", y.NumTerms(), want.NumTerms(), y.Sub(want).NumTerms())
 				for _, Rk := range R {
 					for _, bb := range []bool{false, true} {
